@@ -60,7 +60,7 @@ var propSets = map[string][]string{
 	"C16": {"r3", "more", "chan", "spawn", "shutdown", "timer", "c12", "registry", "ingest", "locks"},
 	"C17": {"r3", "more", "ingest", "c17", "c12", "setters"},
 	"C18": {"prim", "more", "c18", "ingest", "r3"},
-	"C19": {"r3", "more", "c19f", "timer", "chan", "loops", "ingest"},
+	"C19": {"r3", "more", "c19f", "timer", "chan", "loops", "ingest", "registry"},
 	"C20": {"r3", "more", "c20", "ingest", "prim"},
 }
 
